@@ -41,6 +41,12 @@ pub struct Scenario {
     /// "missing-dir", "write-enospc" (state a failed call leaves behind must not reach this one)
     #[serde(default)]
     pub prior_failed_call: Option<String>,
+    /// an earlier *successful* call of the same writer on the same caller thread with the same
+    /// `BuildResult` value, whose image bytes (public fields) are then patched in place - same
+    /// buffers, same lengths, other contents - before the judged call (a serial number written
+    /// into the image between two files; anything keyed by the identity of the buffers goes stale)
+    #[serde(default)]
+    pub prior_ok_patched: bool,
     /// a second caller thread inside a writer at the same time (own image, own path), both
     /// under the token scheduler with yield points at every intercepted libc call
     #[serde(default)]
@@ -299,6 +305,7 @@ pub fn scenario_shape(tier: &str, base_seed: u64, g: u64) -> Scenario {
             fsize_limit: None,
             hash_seed: seed,
             prior_failed_call: None,
+            prior_ok_patched: false,
             duo: None,
             config: "sweep".into(),
             out_rel: OUT_REL.to_string(),
@@ -371,6 +378,7 @@ pub fn scenario_shape(tier: &str, base_seed: u64, g: u64) -> Scenario {
             None
         },
         prior_failed_call: if matches!(config, "free" | "cap") && r.chance(1, 2) { Some(["is-directory", "missing-dir", "write-enospc"][r.usize(3)].to_string()) } else { None },
+        prior_ok_patched: false,
         config: config.into(),
         out_rel: if config != "duo" && config != "sweep" && r.chance(1, 4) {
             let raw = raw_byte_char([0xE4u8, 0xFF, 0x80, 0xC3][r.usize(4)]);
@@ -410,6 +418,9 @@ pub fn scenario_shape(tier: &str, base_seed: u64, g: u64) -> Scenario {
         sc.out_rel = "out/new dir/deep/image.hex".to_string();
         sc.pre_existing = 0;
         sc.pre_kind = String::new();
+    }
+    if matches!(sc.config.as_str(), "free" | "cap" | "enum" | "pair") && r.chance(1, 6) {
+        sc.prior_ok_patched = true;
     }
     sc
 }
@@ -557,7 +568,20 @@ pub fn execute(sc: &Scenario, scratch: &Scratch, budget: u64) -> Result<RunOut, 
             std::env::set_var("TMPDIR", d);
         }
     }
+    let patched = sc.prior_ok_patched;
+    let earlier = scratch.path("out/earlier.hex");
+    let mut br = br;
     let run = run_simulated(st, move || {
+        if patched {
+            // the same value, other bytes in the same buffers; written elsewhere, not judged
+            for b in br.code.iter_mut().chain(br.eeprom.iter_mut()) {
+                *b ^= 0x5A;
+            }
+            let _ = std::panic::catch_unwind(std::panic::AssertUnwindSafe(|| if is_code { avra_lib::writer::write_code_hex(earlier.clone(), &br).is_ok() } else { avra_lib::writer::write_eeprom_hex(earlier.clone(), &br).is_ok() }));
+            for b in br.code.iter_mut().chain(br.eeprom.iter_mut()) {
+                *b ^= 0x5A;
+            }
+        }
         if let Some((pp, pbr)) = prior {
             // the result of the earlier call is not judged here; it is expected to fail
             let _ = std::panic::catch_unwind(std::panic::AssertUnwindSafe(|| if is_code { avra_lib::writer::write_code_hex(pp, &pbr).is_ok() } else { avra_lib::writer::write_eeprom_hex(pp, &pbr).is_ok() }));
@@ -1012,6 +1036,7 @@ pub fn worker(cfg: &WorkerCfg, emit: &mut dyn FnMut(Violation)) -> Stats {
         stats.probe("output_name_without_extension_or_with_inner_dots", sc.out_rel != OUT_REL && !has_raw(&sc.out_rel));
         stats.probe("largest_flash_image", sc.len == MAX_FLASH);
         stats.probe("call_after_a_failed_call_on_the_same_thread", sc.prior_failed_call.is_some());
+        stats.probe("call_after_a_successful_call_with_the_same_value_patched_in_place", sc.prior_ok_patched);
         stats.probe("two_caller_threads_inside_the_writers_with_a_switch", sc.duo.is_some() && out.switches > 0);
         stats.probe("image_crosses_1MiB_segment_limit", sc.len > 0x10_0000);
         stats.probe("writer_returned_err_under_fault", matches!(out.result, Ok(Err(_))) && faulted(&sc));
@@ -1102,6 +1127,11 @@ pub fn shrink(scv: &Value) -> Vec<Value> {
     if sc.prior_failed_call.is_some() {
         let mut s = sc.clone();
         s.prior_failed_call = None;
+        push(s);
+    }
+    if sc.prior_ok_patched {
+        let mut s = sc.clone();
+        s.prior_ok_patched = false;
         push(s);
     }
     if let Some(d) = &sc.duo {
